@@ -28,17 +28,22 @@ import (
 
 func TestMain(m *testing.M) { ev.Main(m, "C20") }
 
-// openFindings: named exclusion switches for genuine defects that are still
-// open in /repo (see FINDINGS.md). While a switch is on, the generators do not
-// produce the exact pattern (counted as ev.Discard("known:<id>")) and
-// TestKnownFindings re-runs the reproducer.
+// openFindings: named exclusion switches for genuine defects of /repo (see
+// FINDINGS.md). While a switch is on, the generators do not produce the exact
+// pattern (counted as ev.Discard("known:<id>")) and TestKnownFindings re-runs
+// the reproducer. Both findings are repaired in /repo by d85777c: the switches
+// are off, the patterns are generated (classes selector-on-int-literal,
+// spread-of-int-literal, for-cond-only-starting-with-brace) and judged by the
+// round-trip oracle; the reproducers are under replays/C20/fixed.
 var openFindings = map[string]bool{
-	// File.String() prints a selector on a number literal (`1 .a`) as `1.a`,
-	// which scans as the float "1." followed by an identifier.
-	"F-C20-1": true,
-	// ForStmt.String() drops the two ';' of `for ; cond ; {}`; when cond
-	// starts with '{' (map literal) the printed `for {…} {}` does not reparse.
-	"F-C20-2": true,
+	// File.String() printed a selector on a number literal (`1 .a`) as `1.a`,
+	// which scans as the float "1." followed by an identifier (same for
+	// `f(1 ...)`). Repaired: a blank is kept between the literal and '.'/'...'.
+	"F-C20-1": false,
+	// ForStmt.String() dropped the two ';' of `for ; cond ; {}`; when cond
+	// starts with '{' (map literal) the printed `for {…} {}` did not reparse.
+	// Repaired: the three-clause form is kept in that case.
+	"F-C20-2": false,
 }
 
 // ---------- rapid adapter for the layout renderer ----------
